@@ -494,6 +494,10 @@ func (e *Enc) frameObligations(fr *Frame, c *FuncContract, rst *State, guard T) 
 		switch n := m.E.(type) {
 		case *CSel:
 			base := e.eval(sc, n.X, nil)
+			if gf := e.prog.ghostField(base.Typ, n.Name); gf != nil {
+				allow = append(allow, allowed{"X|" + typeKey(base.Typ) + "|" + gf.Name, base.L[0]})
+				continue
+			}
 			pt, ok := base.Typ.Underlying().(*types.Pointer)
 			_ = pt
 			_ = ok
